@@ -41,12 +41,14 @@ type entryCfg struct {
 }
 
 type unitCfg struct {
-	Pkg     string     `json:"pkg"`
-	Harness []string   `json:"harness"`
-	Backend string     `json:"backend"`
-	Entries []entryCfg `json:"entries"`
+	Pkg     string            `json:"pkg"`
+	Harness []string          `json:"harness"`
+	Backend string            `json:"backend"`
+	Entries []entryCfg        `json:"entries"`
 	Stubs   map[string]string `json:"stubs"`
 	NoSched []string          `json:"nosched_pkgs"`
+	// NativeRetries: re-run native cases that did not match (code ranging over Go maps)
+	NativeRetries int `json:"native_retries"`
 }
 
 type checkCfg struct {
@@ -66,19 +68,19 @@ type knownFinding struct {
 }
 
 type replayFile struct {
-	Property string            `json:"property"`
-	Pkg      string            `json:"pkg"`
-	Harness  []string          `json:"harness"`
-	Entry    string            `json:"entry"`
-	Label    string            `json:"label"`
-	Kind     string            `json:"kind"`
-	Msg      string            `json:"msg,omitempty"`
-	Model    map[string]uint64 `json:"model"`
-	Sched    []int             `json:"sched,omitempty"`
-	Params   map[string]int    `json:"params,omitempty"`
-	NoSched  []string          `json:"nosched,omitempty"`
-	Decisions string           `json:"decisions,omitempty"`
-	Where    string            `json:"where,omitempty"`
+	Property  string            `json:"property"`
+	Pkg       string            `json:"pkg"`
+	Harness   []string          `json:"harness"`
+	Entry     string            `json:"entry"`
+	Label     string            `json:"label"`
+	Kind      string            `json:"kind"`
+	Msg       string            `json:"msg,omitempty"`
+	Model     map[string]uint64 `json:"model"`
+	Sched     []int             `json:"sched,omitempty"`
+	Params    map[string]int    `json:"params,omitempty"`
+	NoSched   []string          `json:"nosched,omitempty"`
+	Decisions string            `json:"decisions,omitempty"`
+	Where     string            `json:"where,omitempty"`
 }
 
 func loadChecks() (map[string]checkCfg, error) {
@@ -132,32 +134,32 @@ func cmdCheck(args []string) {
 }
 
 type entryReport struct {
-	Entry        string         `json:"entry"`
-	Pkg          string         `json:"pkg"`
-	Bounds       string         `json:"bounds"`
-	Params       map[string]int `json:"params"`
-	Backend      string         `json:"backend"`
-	Paths        int            `json:"paths"`
-	Infeasible   int            `json:"infeasible_paths"`
-	Decisions    int            `json:"decisions"`
-	Obligations  int            `json:"obligations_solver"`
-	Discharged   int            `json:"discharged_solver"`
-	Trivial      int            `json:"discharged_by_normalisation"`
-	Unknown      int            `json:"unknown"`
-	UnknownBr    int            `json:"unknown_branch_queries"`
-	Queries      int            `json:"queries"`
-	SolverS      float64        `json:"solver_s"`
-	WallS        float64        `json:"wall_s"`
-	Reached      map[string]int `json:"reached"`
-	AssertSites  map[string]int `json:"assert_sites"`
-	Aborted      map[string]int `json:"aborted,omitempty"`
-	AbortMsgs    []string       `json:"abort_msgs,omitempty"`
-	Violations   int            `json:"violations"`
-	CrossChecked int            `json:"paths_cross_validated_natively"`
-	SkippedGo    []string       `json:"go_statements_not_executed,omitempty"`
-	Stubs        []string       `json:"stubs_used,omitempty"`
-	ForeignGlobals []string     `json:"foreign_globals_read_uninitialised,omitempty"`
-	Elided       []string       `json:"logging_only_branches_elided,omitempty"`
+	Entry          string         `json:"entry"`
+	Pkg            string         `json:"pkg"`
+	Bounds         string         `json:"bounds"`
+	Params         map[string]int `json:"params"`
+	Backend        string         `json:"backend"`
+	Paths          int            `json:"paths"`
+	Infeasible     int            `json:"infeasible_paths"`
+	Decisions      int            `json:"decisions"`
+	Obligations    int            `json:"obligations_solver"`
+	Discharged     int            `json:"discharged_solver"`
+	Trivial        int            `json:"discharged_by_normalisation"`
+	Unknown        int            `json:"unknown"`
+	UnknownBr      int            `json:"unknown_branch_queries"`
+	Queries        int            `json:"queries"`
+	SolverS        float64        `json:"solver_s"`
+	WallS          float64        `json:"wall_s"`
+	Reached        map[string]int `json:"reached"`
+	AssertSites    map[string]int `json:"assert_sites"`
+	Aborted        map[string]int `json:"aborted,omitempty"`
+	AbortMsgs      []string       `json:"abort_msgs,omitempty"`
+	Violations     int            `json:"violations"`
+	CrossChecked   int            `json:"paths_cross_validated_natively"`
+	SkippedGo      []string       `json:"go_statements_not_executed,omitempty"`
+	Stubs          []string       `json:"stubs_used,omitempty"`
+	ForeignGlobals []string       `json:"foreign_globals_read_uninitialised,omitempty"`
+	Elided         []string       `json:"logging_only_branches_elided,omitempty"`
 }
 
 func runCheck(id, tier, filter string) int {
@@ -222,11 +224,11 @@ func runCheck(id, tier, filter string) int {
 		}
 		var cases []nativeCase
 		type caseMeta struct {
-			entry   string
-			viol    *sym.Violation
-			sample  *sym.PathSample
-			report  int
-			params  map[string]int
+			entry  string
+			viol   *sym.Violation
+			sample *sym.PathSample
+			report int
+			params map[string]int
 		}
 		var metas []caseMeta
 
@@ -358,6 +360,46 @@ func runCheck(id, tier, filter string) int {
 				fmt.Println("NATIVE-RUN-ERROR:", err)
 				broken = append(broken, "native run failed for "+u.Pkg)
 			} else {
+				// code under test that ranges over Go maps behaves differently from run to run natively: a
+				// unit may ask for mismatching cases to be re-run (a reproducing run is a proof; a matching
+				// run shows the symbolic path is a real behaviour)
+				caseOK := func(m caseMeta, r nativeResult) bool {
+					if m.sample != nil {
+						return len(r.Failures) == 0 && r.Panic == "" && strings.Join(m.sample.Observed, ";") == strings.Join(r.Observed, ";")
+					}
+					if m.viol.Kind == "panic" {
+						return r.Panic != ""
+					}
+					for _, f := range r.Failures {
+						if f == m.viol.Label {
+							return true
+						}
+					}
+					return false
+				}
+				for try := 0; try < u.NativeRetries; try++ {
+					var idx []int
+					var again []nativeCase
+					for i, r := range results {
+						if !caseOK(metas[i], r) {
+							idx = append(idx, i)
+							again = append(again, cases[i])
+						}
+					}
+					if len(again) == 0 {
+						break
+					}
+					var log2 bytes.Buffer
+					res2, err2 := runNative(repo, u.Pkg, harness, allEntries, again, nil, &log2)
+					if err2 != nil {
+						break
+					}
+					for k, r := range res2 {
+						if caseOK(metas[idx[k]], r) {
+							results[idx[k]] = r
+						}
+					}
+				}
 				for i, r := range results {
 					m := metas[i]
 					if m.sample != nil {
@@ -446,11 +488,11 @@ func runCheck(id, tier, filter string) int {
 			"functions_encoded":             fl,
 			"exhaustive":                    len(broken) == 0,
 		},
-		"assumptions": append(append([]string{}, cc.Assumptions...), prefixAll("outside the claim: ", cc.Outside)...),
-		"wall_s":      time.Since(t0).Seconds(),
-		"violations":  nViol,
+		"assumptions":             append(append([]string{}, cc.Assumptions...), prefixAll("outside the claim: ", cc.Outside)...),
+		"wall_s":                  time.Since(t0).Seconds(),
+		"violations":              nViol,
 		"known_findings_reported": nKnown,
-		"inconclusive": broken,
+		"inconclusive":            broken,
 	}
 	os.MkdirAll(filepath.Join(verifRoot, "evidence"), 0o755)
 	data, _ := json.MarshalIndent(ev, "", " ")
